@@ -38,6 +38,8 @@ pub struct Segment {
     pub(super) log_writer: Option<SegmentLogWriter>,
     pub(super) log_reader: Option<SegmentLogReader>,
     pub(super) index_writer: Option<SegmentIndexWriter>,
+    /// The detached tasks that finish the writers of a segment that has been closed (see `shutdown_writing`).
+    pub(super) closing_tasks: Vec<tokio::task::JoinHandle<()>>,
     pub(super) index_reader: Option<SegmentIndexReader>,
     pub message_expiry: IggyExpiry,
     pub unsaved_messages: Option<BatchAccumulator>,
@@ -96,6 +98,7 @@ impl Segment {
             log_writer: None,
             log_reader: None,
             index_writer: None,
+            closing_tasks: Vec::new(),
             index_reader: None,
             size_of_parent_stream,
             size_of_parent_partition,
@@ -361,10 +364,10 @@ impl Segment {
 
     pub async fn shutdown_writing(&mut self) {
         if let Some(log_writer) = self.log_writer.take() {
-            tokio::spawn(async move {
+            self.closing_tasks.push(tokio::spawn(async move {
                 let _ = log_writer.fsync().await;
                 log_writer.shutdown_persister_task().await;
-            });
+            }));
         } else {
             warn!(
                 "Log writer already closed when calling close() for {}",
@@ -373,10 +376,10 @@ impl Segment {
         }
 
         if let Some(index_writer) = self.index_writer.take() {
-            tokio::spawn(async move {
+            self.closing_tasks.push(tokio::spawn(async move {
                 let _ = index_writer.fsync().await;
                 drop(index_writer)
-            });
+            }));
         } else {
             warn!("Index writer already closed when calling close()");
         }
@@ -392,6 +395,10 @@ impl Segment {
         }
         if let Some(index_writer) = self.index_writer.take() {
             let _ = index_writer.fsync().await;
+        }
+        // a segment closed a moment ago (e.g. filled by the very last batch) finishes its writers in detached tasks
+        for task in self.closing_tasks.drain(..) {
+            let _ = task.await;
         }
     }
 
